@@ -146,9 +146,11 @@ func (m *Metrics) UpdateCountryStats(addr string, proxyType string, natType stri
 func (m *Metrics) LoadGeoipDatabases(geoipDB string, geoip6DB string) error {
 
 	// Load geoip databases
-	var err error
 	log.Println("Loading geoip databases")
-	m.geoipdb, err = geoip.New(geoipDB, geoip6DB)
+	db, err := geoip.New(geoipDB, geoip6DB)
+	m.lock.Lock()
+	m.geoipdb = db
+	m.lock.Unlock()
 	return err
 }
 
